@@ -1555,7 +1555,20 @@ class Engine:
         for a in e.args:
             self.ev(path, a)
         return SOpaque("str")
-    m_SSlice_strip = m_SSlice_rstrip = m_SSlice_lstrip = m_SSlice_upper = m_SSlice_ljust = _opaque_str
+    m_SSlice_strip = m_SSlice_rstrip = m_SSlice_upper = m_SSlice_ljust = _opaque_str
+
+    def m_SSlice_lstrip(self, path, s, e):
+        """s.lstrip() without arguments on a scanned string: the slice that starts at the first character that is not white space.  The start index is the uninterpreted
+        FIRST_NONBLANK(arr, lo, hi) (library contract of str.lstrip) with the ground facts lo <= r <= hi, r < hi => arr[r] is not white space, and - for a short
+        statically bounded prefix - the characters before r are white space"""
+        if e.args:
+            return self._opaque_str(path, s, e)
+        from .contract import FIRST_NONBLANK
+        r = FIRST_NONBLANK(s.base.arr, s.lo, s.hi)
+        path.assume(z3.And(s.lo <= r, r <= s.hi, z3.Implies(r < s.hi, z3.Not(self.c.isspace_char(z3.Select(s.base.arr, r))))))
+        for j in range(8):
+            path.assume(z3.Implies(s.lo + j < r, self.c.isspace_char(z3.Select(s.base.arr, s.lo + j))))
+        return SSlice(s.base, r, s.hi)
     m_SOpaque_strip = m_SOpaque_rstrip = m_SOpaque_lstrip = m_SOpaque_lower = m_SOpaque_upper = m_SOpaque_ljust = _opaque_str
     m_SLower_strip = m_SLower_rstrip = _opaque_str
 
